@@ -2,7 +2,7 @@
 # tools/seeded.sh <Cnn> [check-tier] : confirm a sub-agent's seeded change (patch + demonstration)
 # in a scratch worktree, run the check against it, and file it under /verif/seeded/<Cnn>/.
 set -u
-prop="$1"; tier="${2:-quick}"; src="/tmp/seedwork/$prop"; name="${3:-$prop}"
+prop="$1"; tier="${2:-quick}"; src="${SEEDSRC:-/tmp/seedwork}/$prop"; name="${3:-$prop}"
 export GOFLAGS=-mod=mod GOPROXY=off GOSUMDB=off GOTOOLCHAIN=local
 [ -f "$src/patch.diff" ] || { echo "no patch in $src"; exit 3; }
 wt="$(mktemp -d /tmp/sd.XXXXXX)"; rmdir "$wt"
